@@ -47,9 +47,10 @@ Inductive case :=
 (* densify(coords, resolution), Geometry.segmented(resolution) *)
 | CDensify (cs : list pt) (r : Q) (expect : res (list pt))
 | CSegmented (g : geom) (r : Q) (expect : res geom)
-(* shapely .area and _auto_resolution *)
+(* shapely .area, .length and _auto_resolution *)
 | CArea (g : geom) (expect : Q)
 | CAuto (g : geom) (expect : Q)
+| CGeomLength (g : geom) (expect : Q)
 (* Geometry.to_crs: CRS objects as equivalence-class numbers of CRS.__eq__, pyproj as a table,
    [geo] = target.geographic, [valid] = is_valid of the projected geometry;
    expected: None = returned self, Some (g, crs) otherwise *)
@@ -80,6 +81,7 @@ Definition check (c : case) : bool :=
   | CSegmented g r e => res_eqb geom_eqb (segmented r g) e
   | CArea g e => Qeq_bool (geom_area g) e
   | CAuto g e => res_eqb Qeq_bool (auto_resolution exact_sqrt g) (Ok e)
+  | CGeomLength g e => opt_eqb Qeq_bool (geom_length exact_sqrt g) (Some e)
   | CToCrs src g dst rs wrap cf geo valid tab e =>
       res_eqb2 tc_eqb
         (to_crs_gen Z Z.eqb (fun _ => geo) (fun _ _ => lookup tab) (fun _ => valid)
